@@ -82,6 +82,14 @@ structure TrackReq where
   t : TrackS Float
   chosen : Option (List Int)
 
+/-- the time stamps of a track request: one natural key per observation (the harness' injective encoding of the `ObsTime`
+fields), in the order of the track — ANY order, ties included —, or `_` for an empty track -/
+def stampList? (s : String) (n : Nat) : Option (List Nat) :=
+  if s == "_" then (if n == 0 then some [] else none) else
+  match natList? s with
+  | some l => if l.length == n then some l else none
+  | none => none
+
 def trackReq? (s : String) : Option TrackReq :=
   match s.splitOn "~" with
   | [ns, nz, pts, ch] => do
@@ -89,6 +97,12 @@ def trackReq? (s : String) : Option TrackReq :=
     let pts ← geom? pts
     let chosen ← if ch == "x" then some none else (intList? ch).map some
     pure ⟨⟨pts.map (fun p => ⟨p, 0⟩), splitTok ns ',', noise⟩, chosen⟩
+  | [ns, nz, pts, ch, tm] => do
+    let noise ← floatList? nz
+    let pts ← geom? pts
+    let tm ← stampList? tm pts.length
+    let chosen ← if ch == "x" then some none else (intList? ch).map some
+    pure ⟨⟨(pts.zip tm).map (fun (p, t) => ⟨p, t⟩), splitTok ns ',', noise⟩, chosen⟩
   | _ => none
 
 structure CallReq where
@@ -118,6 +132,7 @@ def showStates (st : List (List (State Float))) : String :=
 def showResultN (r : ResultN Float) : String :=
   showStates r.states ++ "#" ++ joinWith ";" (r.inference.map showState) ++ "#" ++ joinWith "," r.track.names ++ "#"
     ++ showList showFloat r.track.noise ++ "#" ++ joinWith ";" (r.track.obs.map (fun o => s!"{showFloat o.pos.1},{showFloat o.pos.2}"))
+    ++ "#" ++ showList (fun (n : Nat) => toString n) (r.track.obs.map (fun o => o.t))
 
 /-- one call of the front end; every track is decoded with its own chosen edge numbers (a track without decoding only
 has its `STATES` computed, as the real call did before it raised) -/
@@ -188,6 +203,12 @@ def trackReq3? (s : String) : Option TrackReq3 :=
     let pts ← geom3? pts
     let chosen ← if ch == "x" then some none else (intList? ch).map some
     pure ⟨⟨pts.map (fun p => ⟨p, 0⟩), splitTok ns ',', noise⟩, chosen⟩
+  | [ns, nz, pts, ch, tm] => do
+    let noise ← floatList? nz
+    let pts ← geom3? pts
+    let tm ← stampList? tm pts.length
+    let chosen ← if ch == "x" then some none else (intList? ch).map some
+    pure ⟨⟨(pts.zip tm).map (fun (p, t) => ⟨p, t⟩), splitTok ns ',', noise⟩, chosen⟩
   | _ => none
 
 structure CallReq3 where
@@ -211,6 +232,7 @@ def chosenDecoder3 (chosen : List Int) : Decoder3 Float := fun _ _ states =>
 def showResultN3 (r : ResultN3 Float) : String :=
   showStates3 r.states ++ "#" ++ joinWith ";" (r.inference.map showState3) ++ "#" ++ joinWith "," r.track.names ++ "#"
     ++ showList showFloat r.track.noise ++ "#" ++ joinWith ";" (r.track.obs.map (fun o => showP3 o.pos))
+    ++ "#" ++ showList (fun (n : Nat) => toString n) (r.track.obs.map (fun o => o.t))
 
 def runCall3 (net : Net3 Float) (c : CallReq3) : String :=
   let a : Args Float := ⟨c.noise, 10, c.radius, false, false⟩
